@@ -1897,3 +1897,15 @@ Proof.
   - cbn [it_len]. unfold zlen. f_equal. f_equal. induction T as [|l IHl k r IHr]; [reflexivity|].
     cbn [tree_size inorder]. rewrite app_length. cbn [length]. lia.
 Qed.
+
+(* ------------------------------------------------------------------ a Slice does not touch its input once its own Range is exhausted
+   For ANY input u (well-behaved or not): when the Slice's Range cursor says Terminal, Slice_Iter_Next/Prev (resp.
+   Init/Last) answer Terminal without a single call on the input - no look-ahead beyond the selection.  Together with
+   [slice_move_ok] (between two selected positions exactly |step| steps, all inside the chain) this is what the probe
+   sections af= / ab= of the correspondence observe. *)
+Lemma slice_exhausted_touches_nothing f d u r c rv : ostep d r rv = None ->
+  it_step R f d (ISlice u r) (CSlice c rv) = OVal None.
+Proof. intros H. cbn [it_step slice_bounded repaired]. now rewrite H. Qed.
+
+Lemma slice_empty_touches_nothing f d u r : ostart R d r = None -> it_start R f d (ISlice u r) = OVal None.
+Proof. intros H. cbn [it_start slice_bounded repaired]. now rewrite H. Qed.
